@@ -149,7 +149,11 @@ func rawPost(addr, target string, hs []wireHeader, body []byte, chunks ...int) (
 }
 
 var c07Names = []string{"X-Event", "x-lower-case", "X-MIXED-Case", "Content-Type", "X-Request-Id", "Accept", "X-A", "x-b-c-d", "X_Under", "X.Dot", "Authorization", "Proxy-Authorization", "Cookie", "COOKIE", "authorization", "X-Forwarded-For", "Traceparent"}
-var c07Values = []string{"push", "a b c", "a,b", "a, b", "ünïcödé ✓", "  padded  ", "x=1; y=2", "\"quoted\"", "0", "", "Bearer secret-token", "very-long-" + "vvvvvvvvvvvvvvvvvvvvvvvvvvvvvvvvvvvvvvvvvvvvvvvvvvvv"}
+var c07Values = []string{"push", "a b c", "a,b", "a, b", "ünïcödé ✓", "  padded  ", "x=1; y=2", "\"quoted\"", "0", "", "Bearer secret-token", "very-long-" + "vvvvvvvvvvvvvvvvvvvvvvvvvvvvvvvvvvvvvvvvvvvvvvvvvvvv",
+	// valid UTF-8 that generic encoders treat specially: supplementary-plane tag / private-use /
+	// unassigned code points, emoji, CJK Ext. B, zero-width and bidi controls, line separators, backslashes
+	"tag-\U000e0001-x", "pua-\U000f0000\U0010fffd", "unassigned-\U0003fffd", "emoji-\U0001F600\u200d\U0001F525", "cjk-\U00020000", "zw-\u200b\ufeff\u00ad", "bidi-\u202e\u2066", "ls-\u2028\u2029\u0085",
+	"back\\slash\\u0041", "html-<&>'", "nbsp-\u00a0", "\u00ff\u00fe-latin1"}
 
 func genHeaders(r *vlib.Rand) []wireHeader {
 	n := r.Range(0, 20)
@@ -379,7 +383,7 @@ admin_api { listen 127.0.0.3:0 }
 			}
 			marker := fmt.Sprintf("pub-%d-%d", ci, k)
 			route := vlib.Pick(r, []string{"/p", "/d"})
-			hdr := map[string]string{"X-Verif-Marker": marker, "Content-Type": "application/octet-stream", "X-Pub": vlib.Pick(r, c07Values[:9])}
+			hdr := map[string]string{"X-Verif-Marker": marker, "Content-Type": "application/octet-stream", "X-Pub": vlib.Pick(r, append(append([]string{}, c07Values[:9]...), c07Values[12:]...))}
 			if route == "/d" {
 				smu.Lock()
 				failFirst[marker] = r.Intn(2)
